@@ -15,6 +15,39 @@ fn view(ltt: &LocalTimeType) -> TypeView {
     (ltt.offset(), ltt.is_dst(), ltt.verif_name().map(str::to_owned))
 }
 
+/// A rule day as written in a TZ string.
+#[derive(Clone, Copy, Debug, PartialEq, Eq)]
+pub enum DayView {
+    /// `Jn`
+    Julian1(u16),
+    /// zero-based `n`
+    Julian0(u16),
+    /// `Mm.w.d`
+    MonthWeekday(u8, u8, u8),
+}
+
+/// The rule applying after the last transition.
+#[derive(Clone, Debug, PartialEq, Eq)]
+pub enum RuleView {
+    /// `std offset`
+    Fixed(TypeView),
+    /// `std offset dst [offset],start[/time],end[/time]`: std, dst, start day and time, end day and time
+    Alternate(TypeView, TypeView, DayView, i32, DayView, i32),
+}
+
+/// Everything a zone holds, as plain data.
+#[derive(Clone, Debug, PartialEq, Eq)]
+pub struct ZoneView {
+    /// (transition time, index of the local time type in force from then on)
+    pub transitions: Vec<(i64, usize)>,
+    /// local time types
+    pub types: Vec<TypeView>,
+    /// (leap second time, cumulated correction)
+    pub leap_seconds: Vec<(i64, i32)>,
+    /// rule for instants after the last transition
+    pub rule: Option<RuleView>,
+}
+
 /// A zone built by the crate's own reader.
 #[derive(Clone, Debug, PartialEq, Eq)]
 pub struct Zone(TimeZone);
@@ -67,6 +100,28 @@ impl Zone {
             .find_local_time_type_from_local(local)
             .map(|r| r.map(|ltt| view(&ltt)))
             .map_err(|e| format!("{:?}", e))
+    }
+
+    /// The zone's contents as plain data.
+    pub fn view(&self) -> ZoneView {
+        let (transitions, types, leap_seconds, rule) = self.0.verif_parts();
+        let day = |d: (u8, u16, u8, u8)| match d.0 {
+            0 => DayView::Julian1(d.1),
+            1 => DayView::Julian0(d.1),
+            _ => DayView::MonthWeekday(d.1 as u8, d.2, d.3),
+        };
+        ZoneView {
+            transitions,
+            types: types.iter().map(view).collect(),
+            leap_seconds,
+            rule: rule.map(|r| match r {
+                TransitionRule::Fixed(t) => RuleView::Fixed(view(t)),
+                TransitionRule::Alternate(a) => {
+                    let (s, st, e, et) = a.verif_days();
+                    RuleView::Alternate(view(&a.std), view(&a.dst), day(s), st, day(e), et)
+                }
+            }),
+        }
     }
 
     /// `{:?}` of the zone: transitions, local time types, leap seconds, extra rule.
